@@ -52,6 +52,9 @@ import GrinVerif.Model.DecSer
     codec hsw accept <genesis> <caps> <td> <ua> <deny> <peer ip:port> <ring nonce> <addrs before> <stream>
                                          => <ok caps:ua:ip:port:ver:td:in | err E>|<frame written | ->|<addrs after>
     codec hsw initiate <genesis> <deny> <peer ip:port> <stream> => ok caps:ua:ip:port:ver:td:out | err E
+    codec hsw accepts … / initiates …    as accept / initiate, compared as SPEC values: handshake messages of a NEWER peer
+                                          (any announced version, capability words with bits outside the defined flags)
+                                          must be accepted with min(version) and the known capability bits
     codec glue new <dir> <remote ver> <remote caps> <peer ip:port> <our td> <our height> => ok <negotiated version>   (C19, spec:
                                           a real `Peer::accept` / `Peer::connect` + `Protocol` + `TrackingAdapter` against a raw socket)
     codec glue ctl ban|ready <0|1>       => ok
@@ -667,7 +670,9 @@ def handleConn (args : List String) (impl : String) : Option Verdict :=
                         userAgent := ua, deny := none, allow := none }
       some (cmpModel (toHex (initiateWrites netAutomatedTesting n nonce sa pa)) impl)
     | _, _, _, _, _, _, _ => some .unknown
-  | ["hsw", "accept", g, caps, td, ua, deny, peer, ringNonce, before, stream] =>
+  | ["hsw", acc, g, caps, td, ua, deny, peer, ringNonce, before, stream] =>
+    if acc ≠ "accept" ∧ acc ≠ "accepts" then none else
+    let cmp := if acc = "accepts" then cmpSpec else cmpModel
     match parseHex g, nat? caps, nat? td, parseHex ua, parseDeny deny, parseSockAddr peer, nat? ringNonce,
           parseAddrRing before, parseHex stream with
     | some g, some caps, some td, some ua, some (d, a), some peer, some rn, some before, some bs =>
@@ -678,18 +683,20 @@ def handleConn (args : List String) (impl : String) : Option Verdict :=
       | .ok h =>
         let r := acceptFull netAutomatedTesting n [rn] before (some peer) (sockOfPeerAddr h.senderAddr) h
         let wrote := match r.wrote with | some w => toHex w | none => "-"
-        some (cmpModel s!"{showInfo r.res}|{wrote}|{showRing r.addrs}" impl)
-      | .error e => some (cmpModel s!"err {e.name}|-|{showRing before}" impl)
+        some (cmp s!"{showInfo r.res}|{wrote}|{showRing r.addrs}" impl)
+      | .error e => some (cmp s!"err {e.name}|-|{showRing before}" impl)
     | _, _, _, _, _, _, _, _, _ => some .unknown
-  | ["hsw", "initiate", g, deny, peer, stream] =>
+  | ["hsw", ini, g, deny, peer, stream] =>
+    if ini ≠ "initiate" ∧ ini ≠ "initiates" then none else
+    let cmp := if ini = "initiates" then cmpSpec else cmpModel
     match parseHex g, parseDeny deny, parseSockAddr peer, parseHex stream with
     | some g, some (d, a), some peer, some bs =>
       let n : Node := { genesis := g, version := LOCAL_PROTOCOL_VERSION', capabilities := 0, totalDifficulty := 0,
                         userAgent := [], deny := d, allow := a }
       let o := readMessage netAutomatedTesting GV.Gen.Msg.T_Shake (decShake .bin) bs
       match o.res with
-      | .ok sh => some (cmpModel (showInfo (initiateFull n peer sh)) impl)
-      | .error e => some (cmpModel s!"err {e.name}" impl)
+      | .ok sh => some (cmp (showInfo (initiateFull n peer sh)) impl)
+      | .error e => some (cmp s!"err {e.name}" impl)
     | _, _, _, _ => some .unknown
   | _ => none
 
